@@ -12,7 +12,7 @@ MANIFEST_ENTRY = dict(engine="Chain", design="§4 C15",
 def run(c):
     quick = c.tier == "quick"
     c.level = "exploration"
-    st = chainrun.run_family(c, "C15", "C15", nscen=24 if quick else 250, maxlen=17 if quick else 35,
+    st = chainrun.run_family(c, "C15", "C15", nscen=24 if quick else 1000, maxlen=17 if quick else 35,
                              followers=0, exhaustive=False)
     if st["routes_evaluated"] < 100:
         raise Infra("vacuous run: only %d invariant route evaluations" % st["routes_evaluated"])
